@@ -234,6 +234,10 @@ def Run.out {σ α : Type} (r : Run σ α) : List α := r.blocks.flatten
 /-- `yield val` with nothing else happening -/
 def pass {σ α : Type} (s : σ) (v : α) : Step σ α := ⟨[v], s, none⟩
 
+/-- the loop body yields a value it does not select as it is, and does nothing else -/
+def Passes {σ α : Type} (f : σ → α → Step σ α) (sel : α → Bool) : Prop :=
+  ∀ s v, sel v = false → f s v = pass s v
+
 /-- `for val in flow: <body>` — the body is `f`; an exception ends the generator -/
 def loop {σ α β : Type} (f : σ → α → Step σ β) : σ → List α → Run σ β
   | s, [] => ⟨[], s, none⟩
